@@ -150,7 +150,18 @@ def run_file(case, res):
         e = {"p": "f", "k": "f", "size": case["size"], "segs": case["segs"], "seed": case["seed"], "sync": case["sync"], "falloc": case.get("falloc")}
         tree.materialize(root, [e])
         path = os.path.join(b(root), b"f")
-        r = subprocess.run([PROBE_BIN["probe_fs"], "map", path], capture_output=True, timeout=120)
+        warm = []
+        if case["fs"] == "ext4" and case.get("seed", 0) % 3 == 0:
+            # another file, of 40 extents (more than one page of the extent query), is mapped first in the same process
+            wp = os.path.join(sb.root, "warm-up")
+            with open(wp, "wb") as wf:
+                for k in range(40):
+                    wf.seek(k * 4 * PAGE)
+                    wf.write(b"w" * PAGE)
+                os.fsync(wf.fileno())
+            warm = [wp]
+            res["counters"]["mapped-after-another-file"] = 1
+        r = subprocess.run([PROBE_BIN["probe_fs"], "map", path] + warm, capture_output=True, timeout=120)
         if r.returncode != 0:
             res["inconc"].append("probe-failed")
             res["trace"] = r.stderr.decode("latin-1")[-500:]
